@@ -23,7 +23,7 @@ use redis_sim::streaming::{
 use serde::{Deserialize, Serialize};
 use std::collections::BTreeMap;
 use std::future::Future;
-use std::io::{Error as IoError, ErrorKind, Result as IoResult};
+use std::io::{Error as IoError, Result as IoResult};
 use std::path::PathBuf;
 use std::pin::Pin;
 use std::sync::atomic::{AtomicU64, Ordering};
@@ -249,11 +249,14 @@ struct FState {
 pub struct FaultFs {
     inner: LocalFsObjectStore,
     st: Arc<Mutex<FState>>,
+    /// index into `store::ERROR_KINDS`: the kind injected failures carry
+    err_kind: u8,
 }
 
 impl FaultFs {
-    pub fn new(dir: PathBuf, faults: &[(usize, Fault)]) -> Self {
+    pub fn new(dir: PathBuf, faults: &[(usize, Fault)], err_kind: u8) -> Self {
         FaultFs {
+            err_kind,
             inner: LocalFsObjectStore::new(dir),
             st: Arc::new(Mutex::new(FState {
                 calls: Vec::new(),
@@ -277,7 +280,8 @@ impl FaultFs {
     }
     fn err(&self, idx: usize, what: &str) -> IoError {
         self.failed(idx);
-        IoError::new(ErrorKind::Other, format!("injected {} failure at call {}", what, idx))
+        let (kind, name) = crate::store::error_kind(self.err_kind);
+        IoError::new(kind, format!("injected {} failure ({}) at call {}", what, name, idx))
     }
 }
 
@@ -466,7 +470,7 @@ struct FsRun {
 
 fn run_fs(ops: &[Op], w: &Workload, faults: &[(usize, Fault)]) -> Result<FsRun, String> {
     let dir = Scratch::new()?;
-    let store = FaultFs::new(dir.0.clone(), faults);
+    let store = FaultFs::new(dir.0.clone(), faults, w.err_kind);
     let arc = Arc::new(store.clone());
     let tries = faults.len() + 1;
     let path = dir.0.clone();
